@@ -264,8 +264,24 @@ func H13_acked() {
 		vrtReach("C13.released_some")
 	}
 	vrtCheckQueue(aq, abs[n:])
-	// exactly once: nothing more comes out
-	vrtAssert("C13.released_once", len(aq.Acked()) == 0)
+	// the caller keeps using what it was handed while new requests are registered
+	// (the slot that was just freed is the next one to be filled)
+	kept := make([]AckMsg, len(done))
+	copy(kept, done)
+	m, typ := vrtRequest(0, 0x7777)
+	for _, e := range abs {
+		vrtAssume(e.id != 0x7777)
+	}
+	wire := vrtWire(m)
+	vrtAssert("C13.wait_ok", aq.Wait(m, nil) == nil)
+	for i := 0; i < n; i++ {
+		vrtAssert("C13.released_copy_stays_intact", vrtAnd(vrtBytesEq(kept[i].Msgbuf, abs[i].msg), vrtBytesEq(kept[i].Ackbuf, abs[i].ack)))
+	}
+	rest := append(append([]vrtEnt(nil), abs[n:]...), vrtEnt{id: 0x7777, typ: typ, msg: wire})
+	vrtCheckQueue(aq, rest)
+	// exactly once: nothing of the released prefix comes out again
+	again := aq.Acked()
+	vrtAssert("C13.released_once", len(again) == vrtPrefix(rest))
 	vrtObserve("acked", n, aq.count)
 }
 
